@@ -38,6 +38,7 @@ PROBES = [
     "noop-remove",
     "batch-died-midway",
     "add-interrupted-by-subscriber",
+    "sparql-update-through-wrapper",
 ]
 KNOWN_PREDICATES = {}
 
@@ -84,6 +85,7 @@ def generate(seed, tier):
         "set": g.choice([0, 1, 2]),
         "commit": g.choice([0, 1, 2]),
         "rollback": g.choice([1, 2, 3]),
+        "sparql": g.choice([0, 0, 1]),
     }
     small = g.chance(0.5)  # small vocabulary => many collisions on the same quad
     veto_mode = g.chance(0.25)
@@ -145,6 +147,12 @@ def generate(seed, tier):
             for q in [q for q in content if all(op["t"][i] is None or _tt(op["t"][i]) == q[0][i] for i in range(3)) and (op["g"] is None or q[1] == op["g"])]:
                 content.discard(q)
                 gone[part].append(q)
+        elif kind == "sparql":
+            # a remove by another route: SPARQL Update through a ConjunctiveGraph on the wrapper (single wrapper only: CLEAR / DROP are
+            # not confined to one partition)
+            op["what"] = g.choice(["clear-graph", "drop-graph", "delete-where", "clear-all"] if not two else ["delete-where"])
+            op["t"] = [g.pick(subs), g.pick(preds), None]
+            op["g"] = g.randrange(ngraphs)
         elif kind == "set":
             op["t"] = [g.pick(subs), g.pick(preds), g.pick(objs)]
             op["g"] = g.randrange(ngraphs)
@@ -159,6 +167,7 @@ def generate(seed, tier):
         uid += 1
         ops.append({"uid": uid, "w": sched.pick(parts), "k": "rollback", "via": "store", "g": 0})
     if simple:
+        ops[:] = [op for op in ops if op["k"] != "sparql"]
         for op in ops:
             if op.get("via") == "cg":
                 op["via"] = "graph"
@@ -338,6 +347,33 @@ def execute(trace, ctx):
                 else:
                     ConjunctiveGraph(st, identifier=T(graphs[0])).remove(pat)
             model -= hit
+        elif k == "sparql":
+            import rdflib.plugins.sparql as sp
+
+            sp.SPARQL_DEFAULT_GRAPH_UNION = False
+            gn = T(gname)
+            gkey_ = skey(gname)
+            t = op["t"]
+            w = op["what"]
+            if gn.__class__.__name__ != "URIRef":
+                continue
+            cgw = ConjunctiveGraph(st, identifier=T(graphs[0]))
+            if w == "clear-graph":
+                cgw.update(f"CLEAR GRAPH <{gn}>")
+                model -= {q for q in model if q[3] == gkey_}
+            elif w == "drop-graph":
+                cgw.update(f"DROP SILENT GRAPH <{gn}>")
+                model -= {q for q in model if q[3] == gkey_}
+            elif w == "clear-all":
+                cgw.update("CLEAR ALL")
+                model.clear()
+            else:
+                cgw.update(f"DELETE WHERE {{ GRAPH <{gn}> {{ <{t[0][1]}> <{t[1][1]}> ?o }} }}" if t[0][0] == "u" else f"DELETE WHERE {{ GRAPH <{gn}> {{ ?s <{t[1][1]}> ?o }} }}")
+                if t[0][0] == "u":
+                    model -= {q for q in model if q[3] == gkey_ and q[0] == skey(t[0]) and q[1] == skey(t[1])}
+                else:
+                    model -= {q for q in model if q[3] == gkey_ and q[1] == skey(t[1])}
+            ctx.probe("sparql-update-through-wrapper")
         elif k == "set":
             t = op["t"]
             Graph(st, T(gname)).set((T(t[0]), T(t[1]), T(t[2])))
